@@ -25,7 +25,7 @@ namespace ratio
 
     inline const std::vector<const field *> get_args() const noexcept { return args; } // returns the list of arguments of this constructor..
 
-    expr new_instance(context &ctx, const std::vector<expr> &exprs) noexcept; // creates a new instance of an item whose type has this constructor invoking this constructor within the given context with the given expressions as arguments of the constructor..
+    expr new_instance(context &ctx, const std::vector<expr> &exprs); // (the initialisers and the body may throw: an inconsistency, a modeling error) creates a new instance of an item whose type has this constructor invoking this constructor within the given context with the given expressions as arguments of the constructor..
 
   private:
     void invoke(item &i, const std::vector<expr> &exprs);
